@@ -32,6 +32,7 @@ type loginScn struct {
 	Flow    string   `json:"flow"`
 	Script  []absPkg `json:"script"`
 	Verdict string   `json:"verdict"`
+	Model   string   `json:"model,omitempty"` // outcome of the code-shaped step model LoginFlow.tla for this script
 	// concretisation parameters
 	KeyBits  int      `json:"keybits"`
 	NonceLen int      `json:"noncelen"`
@@ -41,6 +42,10 @@ type loginScn struct {
 	RemPws   []string `json:"rempws"`
 	Cut      int64    `json:"cut"` // seed of the packetisation of the server's messages
 }
+
+// conformance of the step model LoginFlow.tla: scripts with a model outcome, and how many differ
+var loginModelled, loginDrift int
+var loginDriftSamples []string
 
 var loginKeys = map[int]*rsa.PrivateKey{}
 
@@ -404,6 +409,16 @@ func runLogin(tr *Tracer, rng *mrand.Rand, scn *loginScn) {
 			errText = errText[:200]
 		}
 	}
+	if scn.Model != "" {
+		loginModelled++
+		if outcome != scn.Model {
+			loginDrift++
+			if len(loginDriftSamples) < 5 {
+				b, _ := json.Marshal(scn.Script)
+				loginDriftSamples = append(loginDriftSamples, scn.Flow+" "+string(b)+" model="+scn.Model+" code="+outcome)
+			}
+		}
+	}
 	tr.Emit(Ev{"ev": "Result", "outcome": outcome, "ms": ms, "capsok": capsOK, "ps": conn.PacketSize(),
 		"announced": announcedPackSize, "errtext": errText})
 
@@ -657,6 +672,7 @@ func loginMain(args []string) error {
 		}
 		runLogin(tr, rng, &s)
 	}
+	writeSummary(*out+".summary.json", map[string]interface{}{"modelled": loginModelled, "drift": loginDrift, "drift_samples": loginDriftSamples})
 	return tr.Close()
 }
 
